@@ -99,10 +99,20 @@ Atoms == <<
 
 \* ---- postfix (level 1): bases of '.' must not be an identifier or path (those extend the Path) ---------
 IndexT    == Tmpl("IndexExpr", <<N("Expr", E(1)), T("["), N("Index", "Subscript"), T("]")>>)
-SelectorT == Tmpl("SelectorExpr", <<N("Expr", "SelBase"), T("."), N("Ident", "FieldId")>>)
+\* After '.', an identifier-like run (even a keyword or digits) is an identifier ONLY when the dot follows an
+\* identifier, a parameter, ')' or ']' (lexical structure, dot-identifier state).  So a keyword-spelled field
+\* name is derivable only behind such a base; behind any other base (a literal, CASE ... END, '}') the field is
+\* an ordinary identifier.
+SelectorT  == Tmpl("SelectorExpr", <<N("Expr", "SelBaseDot"), T("."), N("Ident", "FieldId")>>)
+SelectorT2 == Tmpl("SelectorExpr", <<N("Expr", "SelBasePlain"), T("."), N("Ident", "Ident")>>)
 IsName(t) == t.node \in {"Ident", "Path"}
 NotName(ts) == SelectSeq(ts, LAMBDA t : ~IsName(t))
-SelBaseT  == <<Paren>> \o NotName(SubSeq(Atoms, 2, Len(Atoms))) \o <<IndexT, SelectorT>>
+EndsDotable(t) == t.node \in {"ParenExpr", "Param", "CountStarExpr", "CastExpr", "IfExpr", "ExtractExpr", "ArrayLiteral", "TupleStructLiteral", "TypelessStructLiteral",
+                               "TypedStructLiteral", "ScalarSubQuery", "ArraySubQuery", "ExistsSubQuery", "WithExpr", "NewConstructor", "ReplaceFieldsExpr"}
+                  \/ (t.node = "CallExpr" /\ t.items[Len(t.items)].i = "T")        \* a call that ends with ')' (no trailing hint)
+SelBaseDotT   == SelectSeq(Atoms, EndsDotable) \o <<IndexT, SelectorT, SelectorT2>>
+SelBasePlainT == SelectSeq(Atoms, LAMBDA t : ~IsName(t) /\ ~EndsDotable(t))
+SelBaseT  == SelBaseDotT \o SelBasePlainT
 
 \* ---- operators ---------------------------------------------------------------
 BinOps(l) == CASE l = 3 -> <<"*", "/", "||">> [] l = 4 -> <<"+", "-">> [] l = 5 -> <<"<<", ">>">>
@@ -129,7 +139,7 @@ Level2Own == <<SignedInt("-"), SignedInt("+"), SignedFloat("-"), Unary("-", "E2n
 
 \* cumulative template tables per level (zero-arity, so TLC evaluates each once)
 ET0 == Atoms
-ET1 == ET0 \o <<IndexT, SelectorT>>
+ET1 == ET0 \o <<IndexT, SelectorT, SelectorT2>>
 ET2 == ET1 \o Level2Own
 BinLevel(l) == [j \in 1..Len(BinOps(l)) |-> Bin(l, BinOps(l)[j])]
 ET3 == ET2 \o BinLevel(3)
@@ -146,7 +156,7 @@ ET2n == SelectSeq(ET2, LAMBDA t : ~IsBareNum(t))
 
 OpNodes == {"BinaryExpr", "UnaryExpr", "InExpr", "IsNullExpr", "IsBoolExpr", "BetweenExpr", "IndexExpr", "SelectorExpr"}
 IsOpTmpl(t) == t.node \in OpNodes \/ (t.node \in {"IntLiteral", "FloatLiteral"} /\ t.items[1].i = "T" /\ t.items[1].c = "kw")
-ELevels == {"E0", "E1", "E2", "E2n", "E3", "E4", "E5", "E6", "E7", "E8", "E9", "E10", "E11", "E12", "SelBase"}
+ELevels == {"E0", "E1", "E2", "E2n", "E3", "E4", "E5", "E6", "E7", "E8", "E9", "E10", "E11", "E12", "SelBase", "SelBaseDot", "SelBasePlain"}
 
 \* ---- helpers of the atoms -------------------------------------------------------
 FuncPathT == << Tmpl("Path", <<L("Idents", "FuncId", ".", 1)>>) >>
@@ -191,7 +201,7 @@ ExprTemplates(nt) ==
     [] nt = "E8" -> ET8 [] nt = "E9" -> ET9 [] nt = "E10" -> ET10 [] nt = "E11" -> ET11
     [] nt = "E12" -> ET12
     [] nt = "E2n" -> ET2n
-    [] nt = "SelBase" -> SelBaseT [] nt = "NameExpr" -> NameExprT
+    [] nt = "SelBase" -> SelBaseT [] nt = "SelBaseDot" -> SelBaseDotT [] nt = "SelBasePlain" -> SelBasePlainT [] nt = "NameExpr" -> NameExprT
     [] nt = "Ident" -> <<Ident>> [] nt = "FieldId" -> <<FieldId>> [] nt = "FuncId" -> <<FuncId>> [] nt = "StringLit" -> <<StringLit>>
     [] nt = "Type" -> TypeTmpls [] nt = "StructField" -> StructFieldT [] nt = "TypeNameId" -> TypeNameIdT
     [] nt = "FuncPath" -> FuncPathT [] nt = "Arg" -> ArgT [] nt = "ExprArg" -> ExprArgT [] nt = "NamedArg" -> NamedArgT
